@@ -524,7 +524,7 @@ impl<'a> ExtendSearch<'a> {
         };
         let stats = bfs.run();
         for f in stats.audit_failures.iter().take(5) {
-            self.ctx.machinery_error(format!("merge audit: {}", f));
+            self.ctx.machinery_soft(format!("merge audit: {}", f));
         }
         // samples: a few histories written out
         for h in stats.sample_histories.iter() {
